@@ -1049,4 +1049,144 @@ Section Opt.
     - rewrite Eb. apply (rec_nodup T m bl blk bh h0 lb lo r R).
     - intros b Hb0. left. rewrite <- Eb. exact Hb0.
   Qed.
+  (* ---- lbuf_savepos(lb, lo): lo->pos_off may change, marks of the struct change *)
+  Lemma opt_savepos_ok (m : mem) bl (blk : block) bh (h0 : block) lb lo (bufv pv ndv : val) c0 c1 c2 c3 c4 c5 c6 c7 c8 (l5 l6 l7 : val) rest :
+    let u := length (hist lb) in
+    urep T m bl blk bh (R9 h0 u [c0; c1; c2; c3; c4; c5; c6; c7; c8]) (push lb lo) -> (9 * u + 9 <= length h0)%nat ->
+    exists (m' : mem) (blk' : block) c5',
+    exec cx fuel (SSeq sJ rest) (mkst [VPtr bl 0; bufv; pv; ndv; VPtr bh (Z.of_nat (9 * u)); l5; l6; l7] m)
+    = exec cx fuel rest (mkst [VPtr bl 0; bufv; pv; ndv; VPtr bh (Z.of_nat (9 * u)); l5; l6; l7] m') /\
+    urep T m' bl blk' bh (R9 h0 u [c0; c1; c2; c3; c4; c5'; c6; c7; c8]) (push lb lo) /\
+    sframe bl bh m m' (ent_blocks (R9 h0 u [c0; c1; c2; c3; c4; c5; c6; c7; c8]) u) (ent_blocks (R9 h0 u [c0; c1; c2; c3; c4; c5'; c6; c7; c8]) u).
+  Proof.
+    intros u R Hlen. pose proof R as [Hb L I Cn Rn Cq Ch Csz Cnn Cu Cz Cl Rg Hh Hl He Ho Ht].
+    set (r := [c0; c1; c2; c3; c4; c5; c6; c7; c8]) in *.
+    assert (Hbl : (bl < length m)%nat) by (apply nth_error_Some; congruence).
+    assert (Hbh : (bh < length m)%nat) by (apply nth_error_Some; congruence).
+    assert (Nhl : bh <> bl) by (intro X; subst; unfold owned in Ho; inversion Ho as [|? ? Hn _]; apply Hn; left; reflexivity).
+    assert (Lr9 : length (R9 h0 u r) = length h0) by (apply R9_length; unfold r; cbn [length]; lia).
+    pose proof (rec_ent T m bl blk bh h0 lb lo r R) as E. fold u in E.
+    destruct (ent_rep_R9_inv m h0 u _ _ _ _ _ _ _ _ _ lo Hlen E) as (S0 & S1 & E2 & E3 & E4 & E5 & E6 & E7 & E8a & E8b & E8c & E8d).
+    destruct (tr_savepos m bl bh blk (R9 h0 u r) u d fuel Hb L I Nhl Hh ltac:(rewrite Lr9; lia)) as (blk' & hblk' & C & Emk & Hh').
+    assert (Hr' : exists c5', hblk' = R9 h0 u [c0; c1; c2; c3; c4; c5'; c6; c7; c8] /\ exists z, c5' = VInt z).
+    { destruct Hh' as [->|[z ->]]; [exists c5; split; [reflexivity|exact E5]|]. exists (VInt z). split; [|eauto].
+      rewrite upd_R9 by (try reflexivity; lia). unfold r. cbn [upd firstn skipn app]. reflexivity. }
+    destruct Hr' as (c5' & -> & E5').
+    set (r' := [c0; c1; c2; c3; c4; c5'; c6; c7; c8]) in *.
+    assert (Eb : ent_blocks (R9 h0 u r') u = ent_blocks (R9 h0 u r) u) by (unfold r, r'; rewrite !ent_blocks_R9 by exact Hlen; reflexivity).
+    destruct (push_cells T m m bl blk bh h0 lb lo lo r r' TF R Hlen eq_refl eq_refl (le_n _) ltac:(reflexivity)) as (R1 & F1); fold u.
+    { intro KE. unfold r in KE. rewrite ent_blocks_R9 in KE by exact Hlen.
+      unfold r'. apply ent_rep_R9; try assumption; try reflexivity.
+      + apply (sown_keeps m _ _ _ S0). intros b Hb0. apply KE. apply in_or_app. left. exact Hb0.
+      + apply (sown_keeps m _ _ _ S1). intros b Hb0. apply KE. apply in_or_app. right. apply in_or_app. left. exact Hb0.
+      + apply (mark_cells_keeps m _ _ _ E7). intros b Hb0. apply KE. apply in_or_app. right. apply in_or_app. right. exact Hb0.
+      + repeat (split; [assumption|]). assumption. }
+    { rewrite Eb. apply (rec_nodup T m bl blk bh h0 lb lo r R). }
+    { intros b Hb0. left. rewrite <- Eb. exact Hb0. }
+    fold u in R1, F1.
+    exists (upd (upd m bh (R9 h0 u r')) bl blk'), blk', c5'. split; [|split].
+    - unfold sJ at 1, opt_t10, opt_t9, opt_t8, opt_t7, opt_t6, opt_t5, opt_t4, opt_t3, opt_t2, opt_t1, opt_rest3, opt_rest2, opt_rest1, opt_body; cbn [fn_body cf_lbuf_opt].
+      xstep. unfold cx at 1. rewrite (callx_mono ext _ _ _ _ _ _ _ C). xstep. reflexivity.
+    - apply (urep_marks T _ bl blk blk' bh _ _ TF R1 Emk).
+    - assert (La : length (upd m bh (R9 h0 u r')) = length m) by (apply upd_length; exact Hbh).
+      apply (sframe_trans bl bh m _ _ _ _ _ F1). split; [rewrite (upd_length _ bl) by (rewrite La; exact Hbl); lia|].
+      split; [intros b Hb0 N1 N2 _; apply mem_upd_other; [rewrite La; exact Hbl|exact N1]|]. intros b Hb0. left. exact Hb0.
+  Qed.
+  (* ---- lbuf_savemark(lb, lo, j) on the newest record keeps the representation *)
+  Lemma mark_part_nodup (m : mem) hblk i : mark_part m hblk i -> NoDup (mark_blocks hblk i).
+  Proof.
+    unfold mark_blocks. intros [[-> ->]|(bm & bo & -> & -> & Hne & _)]; cbn [ptr_block app]; [constructor|].
+    constructor; [intros [X|[]]; congruence|constructor; [intros []|constructor]].
+  Qed.
+  Lemma opt_savemark_ok (m : mem) bl (blk : block) bh (hblk : block) lb lo j :
+    let u := length (hist lb) in
+    urep T m bl blk bh hblk (push lb lo) -> (j < 32)%nat ->
+    exists (m' : mem) (hblk' : block),
+      callf cprog fuel (S (S (S d))) F_lbuf_savemark [VPtr bl 0; VPtr bh (Z.of_nat (9 * u)); VInt (Z.of_nat j)] m = Ok (VUndef, m') /\
+      urep T m' bl blk bh hblk' (push lb lo) /\ sframe bl bh m m' (ent_blocks hblk u) (ent_blocks hblk' u).
+  Proof.
+    intros u R Hj. pose proof R as [Hb L I Cn Rn Cq Ch Csz Cnn Cu Cz Cl Rg Hh Hl He Ho Ht]. destruct Rg as (Rq & (Ru & Rs) & Rz & Rsz).
+    cbn [push hist hist_u hist_sz] in *. rewrite app_length in *. cbn [length] in *. replace (length (hist lb) + 1)%nat with (S u) in * by (unfold u; lia).
+    assert (Hbl : (bl < length m)%nat) by (apply nth_error_Some; congruence).
+    assert (Hbh : (bh < length m)%nat) by (apply nth_error_Some; congruence).
+    assert (Hlen : (9 * u + 9 <= length hblk)%nat) by (rewrite Hl; lia).
+    pose proof (He u ltac:(lia)) as E. unfold u in E at 2. rewrite app_nth2 in E by lia. rewrite Nat.sub_diag in E. cbn [nth] in E.
+    pose proof E as [S0 S1 E2 E3 E4 E5 E6 E7 E8].
+    unfold owned in Ho. rewrite log_blocks_snoc in Ho.
+    change (bl :: bh :: log_blocks hblk 0 u ++ ent_blocks hblk u) with ([bl; bh] ++ log_blocks hblk 0 u ++ ent_blocks hblk u) in Ho.
+    apply NoDup_app_iff' in Ho. destruct Ho as (Ho1 & Ho2 & Ho3). apply NoDup_app_iff' in Ho2. destruct Ho2 as (Ho2 & Ho4 & Ho5).
+    assert (Nhl : bh <> bl) by (intro X; subst; inversion Ho1 as [|? ? Hn _]; apply Hn; left; reflexivity).
+    assert (Nmb : forall x, In x [bl; bh] -> ~ In x (mark_blocks hblk u)).
+    { intros x Hx X. apply (Ho3 x Hx). apply in_or_app. right. apply mark_blocks_ent. exact X. }
+    destruct (tr_savemark m bl bh blk hblk u j (S (S d)) fuel Hb L I Nhl Hh Hlen E7 (Nmb bl ltac:(left; reflexivity)) (Nmb bh ltac:(right; left; reflexivity)) Hj)
+      as (m' & hblk' & C & Hh' & Ll & Hc & Hmp & Hlm & Hk & Hfr).
+    exists m', hblk'. split; [exact C|].
+    (* the record's blocks: ins, del, then the mark arrays *)
+    rewrite ent_blocks_eq in Ho4. fold (mark_blocks hblk u) in Ho4.
+    rewrite app_assoc in Ho4. apply NoDup_app_iff' in Ho4. destruct Ho4 as (Ho4a & Ho4b & Ho4c).
+    assert (Ec0 : hc hblk' (9 * u) = hc hblk (9 * u)) by (apply Hc; lia).
+    assert (Ec1 : hc hblk' (9 * u + 1) = hc hblk (9 * u + 1)) by (apply Hc; lia).
+    assert (Eb' : ent_blocks hblk' u = (ptr_block (hc hblk (9 * u)) ++ ptr_block (hc hblk (9 * u + 1))) ++ mark_blocks hblk' u).
+    { rewrite ent_blocks_eq, Ec0, Ec1, <- app_assoc. reflexivity. }
+    assert (Eb : ent_blocks hblk u = (ptr_block (hc hblk (9 * u)) ++ ptr_block (hc hblk (9 * u + 1))) ++ mark_blocks hblk u).
+    { rewrite ent_blocks_eq, <- app_assoc. reflexivity. }
+    assert (Hsd : forall b, In b (ptr_block (hc hblk (9 * u)) ++ ptr_block (hc hblk (9 * u + 1))) -> nth_error m' b = nth_error m b).
+    { intros b Hb0. apply Hk.
+      - apply (ent_blocks_live m hblk u lo b E). rewrite Eb. apply in_or_app. left. exact Hb0.
+      - intro X; subst. apply (Ho3 bh); [right; left; reflexivity|]. apply in_or_app. right. rewrite Eb. apply in_or_app. left. exact Hb0.
+      - apply Ho4c. exact Hb0. }
+    assert (Hfr' : forall b, In b (ent_blocks hblk' u) -> In b (ent_blocks hblk u) \/ (length m <= b < length m')%nat).
+    { intros b Hb0. rewrite Eb' in Hb0. rewrite Eb. apply in_app_or in Hb0. destruct Hb0 as [X|X]; [left; apply in_or_app; left; exact X|].
+      destruct (Hfr b X) as [Y|Y]; [left; apply in_or_app; right; exact Y|right; exact Y]. }
+    split.
+    - change (push lb lo) with (with_hist (push lb lo) (hist lb ++ [lo])).
+      apply (urep_last T m m' bl blk bh hblk hblk' (push lb lo) (hist lb) lo lo TF R eq_refl); fold u; try assumption.
+      + intros k Hk'. apply Hc; lia.
+      + intros b Hb0 Nb Nin. apply Hk; try assumption. intro X. apply Nin. apply mark_blocks_ent. exact X.
+      + constructor; try assumption; rewrite ?Ec0, ?Ec1, ?(Hc (9 * u + 2)%nat), ?(Hc (9 * u + 3)%nat), ?(Hc (9 * u + 4)%nat), ?(Hc (9 * u + 5)%nat), ?(Hc (9 * u + 6)%nat) by lia; try assumption.
+        * apply (sown_keeps m _ _ _ S0). intros b Hb0. apply Hsd. apply in_or_app. left. exact Hb0.
+        * apply (sown_keeps m _ _ _ S1). intros b Hb0. apply Hsd. apply in_or_app. right. exact Hb0.
+      + rewrite Eb'. apply NoDup_app_iff'. split; [exact Ho4a|]. split; [apply (mark_part_nodup m'); exact Hmp|].
+        intros x Hx X. destruct (Hfr x X) as [Y|Y]; [apply (Ho4c x Hx Y)|].
+        assert (x < length m)%nat; [|lia]. apply (ent_blocks_live m hblk u lo x E). rewrite Eb. apply in_or_app. left. exact Hx.
+    - split; [exact Hlm|]. split; [|exact Hfr']. intros b Hb0 N1 N2 Nin. apply Hk; try assumption. intro X. apply Nin. apply mark_blocks_ent. exact X.
+  Qed.
+  (* ---- for (i = 0; i < NMARKS_BASE; i++) if (lb->mark[i] >= pos && lb->mark[i] < pos + n_del) lbuf_savemark(lb, lo, i); *)
+  Definition sK_loop : stmt := match sK with SSeq _ l => l | _ => SSkip end.
+  Lemma opt_marks_loop_ok bl (blk : block) bh lb lo (bufv : val) p nd (l6 l7 : val) : let u := length (hist lb) in i31 (p + nd) ->
+    forall k j (m : mem) (hblk : block) fuel', (j + k = 28)%nat -> urep T m bl blk bh hblk (push lb lo) -> (k < fuel')%nat ->
+    exists (m' : mem) (hblk' : block),
+      exec cx fuel' sK_loop (mkst [VPtr bl 0; bufv; VInt (Z.of_nat p); VInt (Z.of_nat nd); VPtr bh (Z.of_nat (9 * u)); VInt (Z.of_nat j); l6; l7] m)
+      = ONormal (mkst [VPtr bl 0; bufv; VInt (Z.of_nat p); VInt (Z.of_nat nd); VPtr bh (Z.of_nat (9 * u)); VInt 28; l6; l7] m') /\
+      urep T m' bl blk bh hblk' (push lb lo) /\ sframe bl bh m m' (ent_blocks hblk u) (ent_blocks hblk' u).
+  Proof.
+    intros u Hpn. induction k as [|k IH]; intros j m hblk fuel' Hjk R Hf; (destruct fuel' as [|fuel']; [lia|]);
+      unfold sK_loop, sK, opt_t11, opt_t10, opt_t9, opt_t8, opt_t7, opt_t6, opt_t5, opt_t4, opt_t3, opt_t2, opt_t1, opt_rest3, opt_rest2, opt_rest1, opt_body;
+      cbn [fn_body cf_lbuf_opt]; rewrite exec_for; xstep;
+      change (chk I32 (122 - 97)) with (@Ok Z 25); xstep; change (chk I32 (25 + 3)) with (@Ok Z 28); xstep.
+    - assert (j = 28)%nat by lia. subst j. change (Z.of_nat 28 <? 28) with false. xstep.
+      exists m, hblk. split; [reflexivity|]. split; [exact R|apply sframe_refl].
+    - destruct (Z.ltb_spec (Z.of_nat j) 28); [|lia]. xstep.
+      pose proof R as [Hb L I Cn Rn Cq Ch Csz Cnn Cu Cz Cl Rg Hh Hl He Ho Ht].
+      destruct (I j ltac:(lia)) as [z Cz0].
+      rewrite (fld_load m bl blk j _ _ Hb Cz0) by lia. xstep.
+      assert (Hstep : forall (m1 : mem) (h1 : block), urep T m1 bl blk bh h1 (push lb lo) -> sframe bl bh m m1 (ent_blocks hblk u) (ent_blocks h1 u) ->
+                exists (m' : mem) (hblk' : block),
+                  exec cx fuel' sK_loop (mkst [VPtr bl 0; bufv; VInt (Z.of_nat p); VInt (Z.of_nat nd); VPtr bh (Z.of_nat (9 * u)); VInt (Z.of_nat (S j)); l6; l7] m1)
+                  = ONormal (mkst [VPtr bl 0; bufv; VInt (Z.of_nat p); VInt (Z.of_nat nd); VPtr bh (Z.of_nat (9 * u)); VInt 28; l6; l7] m') /\
+                  urep T m' bl blk bh hblk' (push lb lo) /\ sframe bl bh m m' (ent_blocks hblk u) (ent_blocks hblk' u)).
+      { intros m1 h1 R1 F1.
+        destruct (IH (S j) m1 h1 fuel' ltac:(lia) R1 ltac:(lia)) as (m' & hblk' & C' & R' & F').
+        exists m', hblk'. split; [exact C'|]. split; [exact R'|]. apply (sframe_trans bl bh m m1 m' _ _ _ F1 F'). }
+      unfold sK_loop, sK, opt_t11, opt_t10, opt_t9, opt_t8, opt_t7, opt_t6, opt_t5, opt_t4, opt_t3, opt_t2, opt_t1, opt_rest3, opt_rest2, opt_rest1, opt_body in Hstep;
+        cbn [fn_body cf_lbuf_opt] in Hstep.
+      destruct (Z.leb_spec (Z.of_nat p) (wrap I32 z)) as [G1|G1]; xstep.
+      2:{ rewrite chk_I32 by lia. xstep. replace (Z.of_nat j + 1) with (Z.of_nat (S j)) by lia. apply (Hstep m hblk R). apply sframe_refl. }
+      rewrite (fld_load m bl blk j _ _ Hb Cz0) by lia. xstep. rewrite chk_I32 by (unfold i31 in Hpn; lia). xstep.
+      destruct (Z.ltb_spec (wrap I32 z) (Z.of_nat p + Z.of_nat nd)) as [G2|G2]; xstep.
+      2:{ rewrite chk_I32 by lia. xstep. replace (Z.of_nat j + 1) with (Z.of_nat (S j)) by lia. apply (Hstep m hblk R). apply sframe_refl. }
+      destruct (opt_savemark_ok m bl blk bh hblk lb lo j R ltac:(lia)) as (m1 & h1 & C1 & R1 & F1). fold u in C1, F1.
+      unfold cx at 1. rewrite (callx_mono ext _ _ _ _ _ _ _ C1). xstep.
+      rewrite chk_I32 by lia. xstep. replace (Z.of_nat j + 1) with (Z.of_nat (S j)) by lia. apply (Hstep m1 h1 R1 F1).
+  Qed.
 End Opt.
